@@ -1,4 +1,6 @@
 import ExponaxModel.Proofs.MetricsAlgebra
+import ExponaxModel.Proofs.MetricsGenEq
+import ExponaxModel.Proofs.MetricsGenFourierEq
 /-
 C16 — error metrics are consistent quadratures of the documented norms.
 `Metrics.*` mirrors `exponax/metrics/*.py` on one channel + the per-channel combination (tied by the
@@ -88,5 +90,29 @@ checked by the oracle; it is not a Lean theorem for D > 1.
 -/
 example : bandMask [2, -3] 3 3 = true ∧ bandMask [2, -3] 0 2 = false := by decide
 example : (0 : ℝ) < 2 ∧ (0 : ℝ) < 1 / 2 := by norm_num
+
+/-! ### every exported metric, REGENERATED from `exponax/metrics/*.py` (27 functions found by `ast`), is the model
+quadrature the theorems above are about -/
+open Exponax.Gen.MetricsGen in
+/-- the spatial aggregator and `spatial_norm` (all three modes) — for ANY scalar type, so also for the binary64 model the
+    driver executes -/
+theorem C16_generated_spatial {K : Type} [Add K] [Sub K] [Mul K] [Div K] [Neg K] [Zero K] [One K] [NatCast K] [IntCast K]
+    [HasRpow K] [HasAbs K] [HasLtB K] [HasSqrt K] (D N : ℕ) (u : Array K) (us rs : List (Array K)) (mode : String)
+    (L p q : K) :
+    spatial_aggregator D N u none L none p (some q) = Metrics.spatialAggregator D N L p q u ∧
+    spatial_norm D N us (some rs) mode L p (some q) =
+      some (Metrics.combine (modeCode mode) (chanAgg D N L p q (chanSub us rs)) (chanAgg D N L p q rs)
+        (chanAgg D N L p q us)) :=
+  ⟨by simpa using spatial_aggregator_eq D N u none L none p (some q), spatial_norm_eq D N us rs mode L p q⟩
+
+open Exponax.Gen.MetricsGen in
+/-- the Fourier aggregator incl. its default band limits (`low = 0`, `high = N//2+1`), masks, scaling and cell volume -/
+theorem C16_generated_fourier (D N : ℕ) (u : Array ℝ) (L p q : ℝ) (low high : Option ℕ) :
+    fourier_aggregator D N (Metrics.toComplex u) none (L : ℂ) none (p : ℂ) (some (q : ℂ)) low high none =
+      ((Metrics.fourierAggregator D N L (2 * Real.pi / L) p q (bandOf N low high) none (1 / 100000)
+        (Metrics.magnitudes D N u) : ℝ) : ℂ) := fourier_aggregator_eq_model D N u L p q low high
+
+theorem C16_generated_coverage : Gen.MetricsGen.generated_metrics.length = 27 := by
+  rw [Gen.MetricsGen.generated_metrics_pinned]; rfl
 
 end Exponax
